@@ -1,6 +1,8 @@
 package c15
 
 import (
+	"fmt"
+	"strings"
 	"testing"
 
 	"verif/harness/internal/vstat"
@@ -82,5 +84,36 @@ func TestScenarios(t *testing.T) {
 	outerT = t
 	for _, sc := range scenarios {
 		t.Run(sc.name, func(t *testing.T) { vstat.One(t, prop, sc.c, run) })
+	}
+}
+
+// TestKnownBoundChildWindow re-runs the minimal inputs of the known finding
+// sigBoundChildWindow WITHOUT the by-construction exclusion. It always passes unless a
+// DIFFERENT violation shows up, and prints one KNOWN-REPRODUCED line iff the defect is still
+// there (the driver turns it into a KNOWN-FINDING line).
+func TestKnownBoundChildWindow(t *testing.T) {
+	outerT = t
+	noExclusion = true
+	defer func() { noExclusion = false }()
+	reproduced := ""
+	for _, sc := range scenarios {
+		if !strings.HasPrefix(sc.name, "bound-child-window") {
+			continue
+		}
+		_, err := run(sc.c)
+		if err == nil {
+			continue
+		}
+		msg := strings.SplitN(err.Error(), "\n", 2)[0]
+		if windowExercised && strings.Contains(msg, "has status Deleted but") && strings.Contains(msg, "child-of-") {
+			if reproduced == "" {
+				reproduced = sc.name + ": " + msg
+			}
+			continue
+		}
+		t.Errorf("%s: a violation other than the known finding: %v", sc.name, err)
+	}
+	if reproduced != "" {
+		fmt.Printf("KNOWN-REPRODUCED property=%s signature=%s %s\n", prop, sigBoundChildWindow, reproduced)
 	}
 }
